@@ -9,10 +9,11 @@
                     module and every position where live PySpark 3.5.9 reads a str as a column name *)
 From SF Require Import C16.Fexp C16.Known.
 From Gen Require Import C16Table C16Entries.
-From Coq Require Import String List ZArith. Import ListNotations. Open Scope string_scope.
+From Coq Require Import String List ZArith Bool. Import ListNotations. Open Scope string_scope. Open Scope bool_scope.
 
-(** [probe_names] (the finite bound on column names) and [C16_known] (the listed defects, = findings/C16.known.json)
-    are in theories/C16/Known.v *)
+(** [probe_names] (the finite bound on column names), [C16_known] (the listed unrepaired defects: currently none) and
+    [C16_repaired_keys] (the 27 keys repaired in /repo, findings/C16.known.json status fixed) are in
+    theories/C16/Known.v *)
 
 (** instantiation obligation, re-checked against /repo's current source on every run: the decision procedure
     accepts every decided entry outside the listed defects *)
@@ -57,4 +58,18 @@ Example C16_domain_nonempty :
                             gen_entries)
           [("expm1", "duckdb", 0%nat); ("isnull", "postgres", 0%nat); ("date_add", "snowflake", 1%nat);
            ("coalesce", "standalone", 1%nat)] = true.
+Proof. vm_compute. reflexivity. Qed.
+
+(** the keys of the repaired defects are inside the theorem's domain: every one of them has decided vectors, none is
+    listed, and (by C16_partial) all of them hold -- a regression of a repair makes [gen_all_ok] fail *)
+Example C16_repaired :
+  forallb (fun k => existsb (fun e => if key_eqb k e
+                                      then (if decided gen_prims gen_table "c" e
+                                            then (if listed C16_known e then false
+                                                  else negb (is_err (res_col gen_prims gen_table "c" e))
+                                                       && holds gen_prims gen_table "c" e)
+                                            else false)
+                                      else false)
+                            gen_entries)
+          C16_repaired_keys = true.
 Proof. vm_compute. reflexivity. Qed.
